@@ -5,6 +5,7 @@ import (
 	"crypto/sha256"
 	"encoding/json"
 	"fmt"
+	"path/filepath"
 	"strings"
 	"time"
 
@@ -199,6 +200,9 @@ func c14Manifest(ctx context.Context, s *Scen, name, typ string, w []string) (ci
 
 func boolp(b bool) *bool { return &b }
 
+// c14MemDir: the directory name that makes an instance keep its data in memory
+const c14MemDir = ":memory:"
+
 // c14Outcome classifies the error of a Create/Open: 0 proceeded, 1 refused by the
 // local-presence rule, 2 anything else.
 func c14Outcome(err error) int {
@@ -234,6 +238,77 @@ func runC14(r *Run) error {
 	for i, rep := range s.Reps {
 		ids[i] = rep.Orbit.Identity().ID
 		identNo[ids[i]] = i + 1
+	}
+	// instances that keep their data in memory: 4 = Directory ":memory:", 5 = Directory nil
+	// (NewOrbitDBOptions' default).  They are used by the Create/Open chains only.
+	const memA, memB = 4, 5
+	for i, nilDir := range []bool{false, true} {
+		idx := scenCounter*100 + memA + i
+		nd := nilDir
+		rep, err := s.Env.NewReplicaOpts(idx, s.Label, c14MemDir, sim.PeerIDFor(s.Label, idx), func(o *orbitdb.NewOrbitDBOptions) {
+			if nd {
+				o.Directory = nil
+			}
+		})
+		if err != nil {
+			return fmt.Errorf("instance in memory: %w", err)
+		}
+		s.Reps = append(s.Reps, rep)
+	}
+	// CreateDBOptions.Directory: 0 = unset, 1 = the instance's own directory, 2.. = another
+	// directory (one set per instance: the cache a lookup opens there stays open, and locked,
+	// until the instance is closed)
+	dirOpt := func(peer, dir int) *string {
+		switch dir {
+		case 0:
+			return nil
+		case 1:
+			p := s.Reps[peer].Dir
+			return &p
+		}
+		p := filepath.Join(s.Env.Work, fmt.Sprintf("c14-alt-%s-%d-%d", s.Label, peer, dir-2))
+		return &p
+	}
+	dirCoq := func(dir int) string {
+		switch dir {
+		case 0:
+			return "DUnset"
+		case 1:
+			return "DInst"
+		}
+		return "(DOther " + sim.CoqN(dir-2) + ")"
+	}
+	dirName := func(dir int) string { return []string{"unset", "instance", "other-0", "other-1"}[dir] }
+	// the Directory options of the n operations of one chain
+	drawDirs := func(n int) []int {
+		out := make([]int, n)
+		fill := func(first, rest int) {
+			for i := range out {
+				out[i] = rest
+			}
+			out[0] = first
+		}
+		switch c := r.Rng.Intn(20); {
+		case c < 5:
+			fill(0, 0)
+		case c < 9:
+			fill(2, 2) // the same other directory on every call
+		case c < 11:
+			fill(2, 0) // on the first call only
+		case c < 13:
+			fill(0, 2) // on the later calls only
+		case c < 14:
+			fill(1, 1)
+		case c < 15:
+			fill(1, 2)
+		case c < 17:
+			fill(2, 3) // one directory on the first call, another one afterwards
+		default:
+			for i := range out {
+				out[i] = r.Rng.Intn(4)
+			}
+		}
+		return out
 	}
 	fakeA, fakeB := "02"+strings.Repeat("ab", 32), "03"+strings.Repeat("cd", 32)
 	identNo[fakeA], identNo[fakeB] = 101, 102
@@ -574,12 +649,8 @@ func runC14(r *Run) error {
 		chained[d.str] = true
 		chains++
 		r.Count("chain")
-		mkOpts := func(ow, lo *bool, withAC bool) *orbitdb.CreateDBOptions {
-			o := &orbitdb.CreateDBOptions{Overwrite: ow, LocalOnly: lo, Replicate: boolp(false), Timeout: 3 * time.Second}
-			if withAC {
-				o.AccessController = c14ACParams(given, idx)
-			}
-			return o
+		mkOpts := func(ow, lo *bool, ac accesscontroller.ManifestParams, dir *string) *orbitdb.CreateDBOptions {
+			return &orbitdb.CreateDBOptions{Overwrite: ow, LocalOnly: lo, Replicate: boolp(false), Timeout: 3 * time.Second, AccessController: ac, Directory: dir}
 		}
 		recorded := func(st iface.Store, how string, peer int) {
 			w, _ := st.AccessController().GetAuthorizedByRole("write")
@@ -594,16 +665,49 @@ func runC14(r *Run) error {
 			}
 			r.AddCase(fmt.Sprintf("(CRecorded %s %s %s %s %s %s %s)", sim.CoqN(tok.id(d.addr.GetRoot().String())), sim.CoqN(tok.id(man0.String())),
 				sim.CoqN(c14Types[in.typ]), sim.CoqN(ot), identList(eff0), identList(w), sim.CoqBool(same)), de, true)
-			_ = st.Close()
 		}
+		// one operation of a chain: Create (flag = overwrite), Open (flag = local-only), or
+		// closing every handle obtained so far; dir = the Directory option
 		type step struct {
-			create bool
-			flag   bool // overwrite / local-only
+			kind int // 0 create, 1 open, 2 close all
+			flag bool
+			dir  int
 		}
-		runLocal := func(peer int, steps []step) {
-			ops := make([]string, len(steps))
-			obs := make([]int, len(steps))
+		// runLocal runs the steps on one instance for the address d.str.  hold: the handles stay
+		// open until a close-all step (otherwise every handle is closed as soon as it is obtained,
+		// which the case records as a close-all step after the operation).
+		runLocal := func(peer int, steps []step, hold bool) {
+			mem := s.Reps[peer].Dir == c14MemDir
+			// the creator is an input of the address when no write list is given: on an instance
+			// other than peer 0 the list peer 0's default stands for is given explicitly
+			acw := given
+			if peer != 0 && len(acw) == 0 {
+				acw = eff0
+			}
+			var ops []string
+			var obs []int
+			var names []string
+			var held []iface.Store
+			closeAll := func() int {
+				res := 0
+				for _, h := range held {
+					if c, m := callClass(10*time.Second, h.Close); c != clsOK {
+						res = 2
+						r.Notes = append(r.Notes, fmt.Sprintf("input %d peer %d: Close: %s %s", idx, peer, clsName[c], m))
+					}
+				}
+				held = nil
+				return res
+			}
+			// the property, as Address.dlocal_ok states it (for the signature only)
+			have, seen := false, false
+			sig := ""
 			for i, stp := range steps {
+				if stp.kind == 2 {
+					ops, obs, names = append(ops, "DCloseAll"), append(obs, closeAll()), append(names, "close-all")
+					have, seen = have && !mem, seen && !mem
+					continue
+				}
 				var st iface.Store
 				var err error
 				func() {
@@ -613,37 +717,104 @@ func runC14(r *Run) error {
 							r.AddDirect("panic:create-open", fmt.Sprint(p), descr("local", map[string]interface{}{"peer": peer, "step": i}))
 						}
 					}()
-					if stp.create {
-						ops[i] = "LCreate " + sim.CoqBool(stp.flag)
-						st, err = s.Reps[peer].Orbit.Create(ctx, in.name, in.typ, mkOpts(boolp(stp.flag), nil, true))
+					if stp.kind == 0 {
+						ops = append(ops, fmt.Sprintf("DCreate %s %s", sim.CoqBool(stp.flag), dirCoq(stp.dir)))
+						names = append(names, fmt.Sprintf("create(overwrite=%v,directory=%s)", stp.flag, dirName(stp.dir)))
+						st, err = s.Reps[peer].Orbit.Create(ctx, in.name, in.typ, mkOpts(boolp(stp.flag), nil, c14ACParams(acw, idx), dirOpt(peer, stp.dir)))
 					} else {
-						ops[i] = "LOpen " + sim.CoqBool(stp.flag)
-						st, err = s.Reps[peer].Orbit.Open(ctx, d.str, mkOpts(nil, boolp(stp.flag), false))
+						ops = append(ops, fmt.Sprintf("DOpen %s %s", sim.CoqBool(stp.flag), dirCoq(stp.dir)))
+						names = append(names, fmt.Sprintf("open(local-only=%v,directory=%s)", stp.flag, dirName(stp.dir)))
+						st, err = s.Reps[peer].Orbit.Open(ctx, d.str, mkOpts(nil, boolp(stp.flag), nil, dirOpt(peer, stp.dir)))
 					}
 				}()
-				obs[i] = c14Outcome(err)
-				if obs[i] == 2 {
+				o := c14Outcome(err)
+				obs = append(obs, o)
+				if o == 2 {
 					r.Count("chain-other-error")
 					r.Notes = append(r.Notes, fmt.Sprintf("input %d peer %d step %d: %v", idx, peer, i, err))
 				}
+				if stp.kind == 0 {
+					if (have && !stp.flag) != (o == 1) && sig == "" {
+						sig = "local:create-of-existing-database-not-refused"
+						if o == 1 {
+							sig = "local:create-refused-without-existing-database"
+						}
+					}
+					have, seen = have || o == 0, seen || o == 0
+				} else {
+					if stp.flag && have && o == 1 && sig == "" {
+						sig = "local:open-local-only-misses-database-created-here"
+						if stp.dir >= 2 {
+							// the known one: looked up in the option's directory, recorded in the instance's
+							sig = "local:open-local-only-other-directory-misses-database-created-here"
+						}
+					} else if sig == "" && ((stp.flag && !seen && o != 1) || (!stp.flag && o == 1)) {
+						sig = "local:open-rule"
+					}
+					seen = seen || o == 0
+				}
+				if stp.dir >= 2 {
+					r.Count("chain-op:other-directory")
+				}
 				if err == nil && st != nil {
 					how := "open"
-					if stp.create {
+					if stp.kind == 0 {
 						how = "create"
 					}
 					recorded(st, how, peer)
+					held = append(held, st)
+					if !hold {
+						ops, obs, names = append(ops, "DCloseAll"), append(obs, closeAll()), append(names, "close-all")
+						have, seen = have && !mem, seen && !mem
+					}
 				}
 			}
-			de := descr("local", map[string]interface{}{"peer": peer, "address": d.str, "ops": ops, "observed": obs})
+			closeAll()
+			de := descr("local", map[string]interface{}{"peer": peer, "address": d.str, "ops": names, "observed": obs, "memory": mem, "hold": hold})
 			if foreign {
 				de["sig"] = sigFor("address-root-not-manifest")
+			} else if sig != "" {
+				de["sig"] = sig
 			}
-			r.AddCase(fmt.Sprintf("(CLocal %s %s)", sim.CoqList(ops), sim.CoqListN(obs)), de, true)
+			r.AddCase(fmt.Sprintf("(CLocalDir %s %s %s)", sim.CoqBool(mem), sim.CoqList(ops), sim.CoqListN(obs)), de, true)
+			r.Count(fmt.Sprintf("chain:memory=%v,hold=%v", mem, hold))
 		}
 		first := r.Rng.Intn(2) == 0 // first create with or without overwrite
-		runLocal(0, []step{{true, first}, {true, false}, {true, true}, {false, true}})
-		runLocal(1, []step{{false, false}, {false, true}})
-		runLocal(3, []step{{false, true}})
+		// the creator, on disk
+		{
+			ds := drawDirs(7)
+			steps := []step{{0, first, ds[0]}, {0, false, ds[1]}, {0, true, ds[2]}, {1, true, ds[3]}}
+			hold := r.Rng.Intn(3) == 0
+			if hold {
+				// once the handles are closed everything is as before on disk
+				steps = append(steps, step{2, false, 0}, step{1, true, ds[4]}, step{0, false, ds[5]}, step{1, false, ds[6]}, step{2, false, 0})
+			}
+			runLocal(0, steps, hold)
+		}
+		// instances that never create it
+		{
+			ds := drawDirs(3)
+			runLocal(1, []step{{1, false, ds[0]}, {1, true, ds[1]}}, false)
+			runLocal(3, []step{{1, true, ds[2]}}, false)
+		}
+		// an instance in memory creates the same database (same name, type and write list)
+		if !foreign && r.Rng.Intn(2) == 0 {
+			peer := memA + r.Rng.Intn(2)
+			if e := c14Determine(ctx, s.Reps[peer].Orbit, in.name, in.typ, eff0, 0); e.class != "ok" || e.str != d.str {
+				r.Count("chain-skipped:other-address-on-the-instance-in-memory")
+				return nil
+			}
+			ds := drawDirs(7)
+			ow := r.Rng.Intn(2) == 0
+			if r.Rng.Intn(3) > 0 {
+				// handles held: the rules are those of a disk instance until they are closed; then
+				// nothing of the database is left: it can be created again (and then opened)
+				runLocal(peer, []step{{0, ow, ds[0]}, {0, false, ds[1]}, {0, true, ds[2]}, {1, true, ds[3]}, {2, false, 0},
+					{1, true, ds[4]}, {0, false, ds[5]}, {1, false, ds[6]}, {2, false, 0}}, true)
+			} else {
+				runLocal(peer, []step{{0, ow, ds[0]}, {0, false, ds[1]}, {1, true, ds[2]}}, false)
+			}
+		}
 		return nil
 	}
 
